@@ -13,6 +13,7 @@ import (
 	"math/big"
 	"os"
 	"testing"
+	"unsafe"
 )
 
 type replayDoc struct {
@@ -176,4 +177,16 @@ func RunReplay(t *testing.T, hs map[string]func()) {
 		}
 	}()
 	fn()
+}
+
+// BoundReceiver returns the receiver captured by a bound method value with a pointer
+// receiver (e.g. (&net.Dialer{...}).Dial), or nil.
+func BoundReceiver(f any) unsafe.Pointer {
+	type eface struct{ typ, data unsafe.Pointer }
+	e := (*eface)(unsafe.Pointer(&f))
+	if e.data == nil {
+		return nil
+	}
+	// a func value is pointer-shaped: the interface data word points at {code pointer, captured receiver}
+	return (*[2]unsafe.Pointer)(e.data)[1]
 }
